@@ -471,6 +471,8 @@ def fixed_stream():
     for nopts in (2, 12, -1):
         ob2 = b'Options' + b''.join(struct.pack('<i', x) for x in [nopts, 1, 1, 0, 1, 1, 1, 1])
         out.append(('targeted:binary-nopts-%d' % nopts, rec(b'binary') + rec(b'm') + rec(b'') + rec(ob2) + rec(struct.pack('<d', 0.5)) + rec(struct.pack('<d', 1.5)), 1, 1))
+    for nopts in (2, 10, 12, -1):
+        out.append(('targeted:text-nopts-%d' % nopts, b'm\n\nOptions\n%d\n1\n1\n0\n1\n1\n1\n1\n1\n1\n1\n1\n1\n1\n1\n0.5\n1.5\n' % nopts, 1, 1))
     base = b'm\n\n'
     for name, body in [
         ('solve-code-below-int', b'objno 0 -1e30\n'),
